@@ -73,6 +73,9 @@ func (t *T0x1210) Parse(jtMsg *jt808.JTMessage) error {
 	start := cursor
 	t.T0x1210AlarmItemList = nil // 复用对象时 不保留上一次的列表
 	for i := 0; i < int(t.AttachCount); i++ {
+		if len(body) < start+1 {
+			return protocol.ErrBodyLengthInconsistency
+		}
 		fileNameLen := body[start]
 		if len(body) < start+1+int(fileNameLen)+4 {
 			return protocol.ErrBodyLengthInconsistency
